@@ -596,6 +596,22 @@ class DiGraph(object):
 
                         frontier[runner].add(node)
                         runner = idoms[runner]
+
+        # The head has no immediate dominator. When it has predecessors (loop
+        # back to the head), it belongs to the frontier of every dominator of
+        # these predecessors, up to and including the head itself
+        for predecessor in self.predecessors_iter(head):
+            runner = predecessor
+            if runner != head and runner not in idoms:
+                # Not reachable from head
+                continue
+            while True:
+                if runner not in frontier:
+                    frontier[runner] = set()
+                frontier[runner].add(head)
+                if runner == head:
+                    break
+                runner = idoms[runner]
         return frontier
 
     def _walk_generic_first(self, head, flag, succ_cb):
